@@ -44,6 +44,11 @@ CHECKS.update({
     "C18": ("DESIGN 4 C18", "Two builds per kind from parameter vectors whose scalar coordinates are symbolic over their full ranges; side B equals side A except for one free coordinate, for every coordinate; deep_eq must equal equality of an independent normal form, be symmetric and reflexive; children are inserted in opposite orders; cross-kind pairs sharing a UUID."),
 })
 
+CHECKS.update({
+    "C09": ("DESIGN 4 C09", "Loader on messages built from the descriptors: each reference field selects its target from a pool containing every node kind, the IR and an unknown UUID; well-typed closed files must load with every reference being (Python `is`) the object reached through containment, anything else must raise DeserializationError exactly; AuxData UUID/Offset entries at IR and module level resolve to the attached object or stay plain UUIDs."),
+    "C17": ("DESIGN 4 C17", "Header with all 8 bytes symbolic (and every shorter prefix) decided by z3; message version field symbolic; every truncation point and single-bit flip of a valid file and every single structural fault (uuid fields set to clashing / foreign / unknown / wrong-length values, undeclared enum numbers, size below contents, kind-less blocks and expressions, ...) enumerated by the engine: the loader must raise or return an IR that satisfies the C03 and C04 oracles, has well-typed references and can be saved again."),
+})
+
 NOT_APPLICABLE = {
 }
 
